@@ -922,8 +922,10 @@ def band_of(case):
     """the tolerance band the property's quantifier admits for this probe: every first writer whose dimensions are
     within a factor 1000 (netlist/allocation: 1e-12 * smallest, die: 1e-11 * smaller side)"""
     lo_d, hi_d = (F(v) for v in case["probe"]["dims"])
-    lo = F(10) ** -12 * lo_d / 1000
-    hi = F(10) ** -11 * hi_d * 1000
+    # (the code computes the candidate as a binary64 product, e.g. 1e-12 * 0.01 = 9.999999999999999e-15: a first writer
+    # exactly a factor 1000 away lands a rounding below / above the exact bound, hence the same 1e-9 slack as for the areas)
+    lo = F(10) ** -12 * lo_d / 1000 * (1 - F(1, 10 ** 9))
+    hi = F(10) ** -11 * hi_d * 1000 * (1 + F(1, 10 ** 9))
     alo = F(math.sqrt(float(lo))) * (1 - F(1, 10 ** 9))
     ahi = F(math.sqrt(float(hi))) * (1 + F(1, 10 ** 9))
     return lo, hi, alo, ahi
